@@ -512,6 +512,37 @@ fn handle(line: &str) -> String {
             }
             s
         }
+        "searchdelay" => {
+            // searchdelay <seed> <depth> <workers> <tables> <buckets> <ms> <fen...>: like `search` (fresh memory), but
+            // every insert under the ROOT key by an odd-numbered worker first waits <ms> ms (a forced schedule: the
+            // shallower workers write the root entry last)
+            let seed: u64 = parts[1].parse().unwrap();
+            let depth = opt_usize(parts[2]);
+            let workers = opt_usize(parts[3]);
+            let tables: usize = parts[4].parse().unwrap();
+            let buckets: usize = parts[5].parse().unwrap();
+            let ms: u64 = parts[6].parse().unwrap();
+            let artifact = verif::artifact_new(seed, tables, buckets);
+            let Some(state) = parse_fen(&parts[7..].join(" ")) else {
+                return "badfen".into();
+            };
+            verif::set_insert_delay(verif::artifact_hash(&artifact, &state), ms);
+            let mut out: Vec<String> = vec![];
+            let art = verif::analyze_sync(state.clone(), seed, depth, Some(artifact), workers, None, &mut |e| match e {
+                StatusEvent::BestMove { line, evaluation } => {
+                    let l: Vec<String> = line.iter().map(|m| m.as_raw().to_string()).collect();
+                    out.push(format!("best:{}:{}", i32::from(evaluation), l.join(",")));
+                }
+                StatusEvent::Progress { depth, nodes_searched, .. } => {
+                    out.push(format!("prog:{}:{}", depth, nodes_searched));
+                }
+                StatusEvent::Warning { .. } => out.push("warn".into()),
+            });
+            verif::set_insert_delay(0, 0);
+            let (n, mx) = verif::artifact_entries(&art);
+            out.push(format!("entries:{}/{}", n, mx));
+            out.join(" ")
+        }
         "searchseq" => {
             // searchseq <seed> <tables> <buckets> <workers|-> <n> {<depth|-> <cancel|-> <fen with _>}*
             // n searches sharing one artifact (the memory of each is handed to the next)
